@@ -821,7 +821,17 @@ def run_case(prop, case, res):
     if (len(case["prog"]) + t) % 3 == 0:
         from ..common import with_alarm, AlarmTimeout
 
-        sb = make_riscv("five", hz=hz, dcache=case.get("dcache"), icache=case.get("icache"), via=getattr(sim, "_vp_via", None))  # built the way the observed one was
+        if (len(case["prog"]) + t) % 6 == 0:
+            # the unobserved twin is a simulation wrapped around a CALLER-BUILT five-stage state, the facade's own mode
+            # argument left at its default (a public construction path; the state says what the machine is)
+            from architecture_simulator.simulation.riscv_simulation import RiscvSimulation
+            from architecture_simulator.uarch.riscv.riscv_architectural_state import RiscvArchitecturalState
+            from ..common import cache_options
+
+            sb = RiscvSimulation(state=RiscvArchitecturalState(pipeline_mode="".join(list("five_stage_pipeline")), detect_data_hazards=hz, data_cache_options=cache_options(case.get("dcache")), instruction_cache_options=cache_options(case.get("icache"))))
+            res.count("unobserved_runs_on_caller_built_state")
+        else:
+            sb = make_riscv("five", hz=hz, dcache=case.get("dcache"), icache=case.get("icache"), via=getattr(sim, "_vp_via", None))  # built the way the observed one was
         install_program(sb, case["prog"])
         set_regs(sb, case["regs"])
         preload_mem(sb, case["mem"])
